@@ -3,7 +3,10 @@
 Engine: SimLoop (single thread, manager not running, the harness calls tick()/flush()).  Workload: generated finite event
 trees.  Every generated handler records who fired what (ghost causal tree); the oracle is evaluated at the FIRE time of
 every `<name>_complete` (seen through a `fireEvent` override in the generated component classes, public API) and after
-every tick (liveness).
+every tick (liveness).  There is no catch-all observer handler in the tree: events with a name nobody handles, or fired on a
+channel nobody listens on, really have no handler at all.  Their dispatch cannot be seen, so a `flushEvents` override marks
+the queue passes: a handler-less event counts as dispatched once the pass that holds it has ended (and is given the benefit
+of the doubt while that pass runs).
 
 Liveness bound (stated by the guide's rule for liveness properties): once the harness has seen the closure of a dispatched,
 complete-requesting event drained (checked after every tick()/flush() it issues), `<name>_complete` must have been fired
@@ -14,13 +17,16 @@ the step cap raises HarnessLimit (not a violation).
 Finding keys: C05/exactly-once/fired-twice; C05/early-complete/<not-dispatched | handlers-remaining | generator-handler-running>
 (an undrained closure member reached through plain-handler fires only) or C05/early-complete/fired-from-generator-step (all
 undrained members sit below a fire made from a generator step); C05/never-completes/<cancelled-descendant |
-raising-generator-handler | cancelled-descendant+raising-generator-handler | liveness> (shape = which of the two fault kinds
-are present in the drained closure).  ctx.avoid: a listed cancelled-descendant key stops cancellation inside tracked closures,
+raising-generator-handler | handlerless-descendant | liveness> (shape = which hazardous kind is present in the drained
+closure; when several are present the run is repeated on a shadow context with all kinds but one left out, and the kind that
+alone still prevents completion names the finding; 'a+b' only if no single kind does).  ctx.avoid: a listed cancelled-descendant key stops cancellation inside tracked closures,
 a listed raising-generator-handler key stops generator handlers of tracked events from raising, a listed
-fired-from-generator-step key stops generator handlers of tracked events from firing.
+fired-from-generator-step key stops generator handlers of tracked events from firing, a listed handlerless-descendant key
+gives every descendant of a tracked event at least one handler.
 """
 from simcore import world
-from simcore.runner import HarnessLimit
+from simcore.choices import Choices
+from simcore.runner import HarnessLimit, RunCtx
 
 from circuits import BaseComponent, Event, handler
 
@@ -31,15 +37,17 @@ LEVEL_TEXT = ('seeded exploration of generated event trees x fault placements x 
               'judged at its fire time against a ghost causal tree kept by the generated handlers, and liveness is judged against a '
               'stated tick bound; sampling, not proof - evidence states how many distinct programs/logs were explored')
 LEVEL_NOTE = ('trusted: the ghost bookkeeping in the generated handlers (who fired what, which handler/generator is finished), the '
-              'observer handler at priority 1e18 as dispatch-begin marker, the fireEvent override as fire-time marker, CPython')
-RULE = ('each run = generated program (1-3 components, 1-6 handler slots, plain or generator, priorities with ties) + 1-4 root event '
+              'fireEvent override as fire-time marker, the flushEvents override as queue-pass marker (handler-less events), the 6-line '
+              'channel matching rule used to predict which generated handlers an event reaches, CPython')
+RULE = ('each run = generated program (1-3 components on channels */x/y, 1-6 handler slots, plain or generator, priorities with ties; '
+        'events fired on the firer\'s channel, *, x, y or a deaf channel, so some have no handler at all) + 1-4 root event '
         'trees (fan-out <= 3, depth <= 5, complete / nested complete / complete_channels flags, cancel-by-firer / cancel-by-harness / '
         'stop / raise placed on any descendant, children fired from any generator step) + a tick()/flush() schedule with the roots '
         'fired at drawn points, all from one seeded tape; non-trivial = a dispatched complete-requesting event had a closure of >= 3 '
-        'events containing at least one fault or one child fired from a generator step; distinct = distinct digest of the full '
+        'events containing at least one fault, one handler-less member or one child fired from a generator step; distinct = distinct digest of the full '
         'fire/dispatch/handler-step/cancel/complete log')
 STATE_MEASURE = ('per complete-requesting event: (closure size bucket, closure depth, #generator-step edges, #cancelled, #stopped, '
-                 '#raising plain, #raising generator, #nested complete requesters, complete fired from task phase or dispatcher)')
+                 '#raising plain, #raising generator, #nested complete requesters, #handler-less, complete fired from task phase or dispatcher)')
 REAL = ['circuits.core.manager.Manager (fire/_fire/flush/tick/_dispatcher/_eventDone/processTask/_EventQueue)',
         'circuits.core.components.BaseComponent (incl. unregister -> prepare_unregister(complete=True) -> detach)',
         'circuits.core.handlers.handler', 'circuits.core.events.Event (cancel/stop/child/complete/complete_channels)',
@@ -55,11 +63,16 @@ ASSUMPTIONS = [
     'a complete-requesting event that is itself cancelled before dispatch: nothing is demanded for it (the quantifier cancels descendants); '
     'at most one `_complete` still applies',
     'handlers are plain functions; a "generator handler" is a handler returning a generator object (what a generator function call does)',
-    'handlers never call flush()/tick() re-entrantly, never wait()/call() (C06), all slot components use channel "*"',
+    'handlers never call flush()/tick() re-entrantly, never wait()/call() (C06)',
+    'which generated handlers an event reaches is predicted from name and channel (event channel "*" reaches all; otherwise components '
+    'whose channel is "*" or the event channel) - matching itself is C01\'s subject',
+    'an event without any handler is "dispatched to all its handlers" as soon as it has been popped; that moment is not observable, so '
+    'it counts as done when the queue pass that contains it has ended, and at the fire time of a `_complete` already while that pass runs',
 ]
 PROBES = ['complete-fired', 'complete-fired-from-task-phase', 'nested-complete', 'roots-in-flight>=2', 'complete-channels',
           'tracked-gen-step-fire', 'tracked-cancel', 'tracked-stop', 'tracked-raise-plain', 'tracked-raise-gen',
-          'two-generators-one-event', 'unregister-root', 'harness-cancel-tracked']
+          'two-generators-one-event', 'unregister-root', 'harness-cancel-tracked', 'tracked-handlerless', 'tracked-deaf-channel',
+          'tracked-unhandled-name']
 TIERS = {
     'quick': dict(runs=100000, wall=28, chunk=125, cfg=dict(max_nodes=14, max_roots=3, max_ops=8, max_depth=5)),
     'thorough': dict(runs=500000, wall=600, chunk=500, cfg=dict(max_nodes=40, max_roots=4, max_ops=16, max_depth=5)),
@@ -69,8 +82,13 @@ K_CANCEL = 'C05/never-completes/cancelled-descendant'
 K_GENRAISE = 'C05/never-completes/raising-generator-handler'
 K_GENSTEP = 'C05/early-complete/fired-from-generator-step'
 K_BOTH = 'C05/never-completes/cancelled-descendant+raising-generator-handler'
+F_CANCEL, F_GENRAISE, F_NOH = 'cancelled-descendant', 'raising-generator-handler', 'handlerless-descendant'
+F_STOP, F_RAISE, F_NESTED = 'stopped-event', 'raising-plain-handler', 'nested-requester'
+KINDS = (F_CANCEL, F_GENRAISE, F_NOH, F_STOP, F_RAISE, F_NESTED)     # what a closure can contain besides plainly handled events
 
 NAMES = ['a', 'b', 'c', 'd']
+CCHANS = ['*', '*', 'x', 'y']              # channel of a generated component
+ECHANS = [None, '*', 'x', 'y', 'deaf']      # channel an event is fired on (None: fire(e) without channel = the firer's channel)
 HPRIOS = [0, 0, 1, -1, 2]
 FANOUT = 3
 
@@ -81,31 +99,71 @@ class Injected(Exception):
 
 class Node:
     """One planned event of a tree (the program)."""
-    __slots__ = ('nid', 'name', 'depth', 'complete', 'cc', 'tracked', 'cancel', 'specs', 'unreg', 'succ')
+    __slots__ = ('nid', 'name', 'depth', 'complete', 'cc', 'tracked', 'cancel', 'specs', 'unreg', 'succ', 'chan', 'echan', 'firer', 'nslots')
 
 
 class Ghost:
     """What the harness knows about one fired event."""
     __slots__ = ('eid', 'node', 'ev', 'parent', 'via_gen', 'kids', 'state', 'ran', 'stopped', 'open', 'gen_raised', 'plain_raised',
-                 'cfired', 'drained_at', 'nslots')
+                 'cfired', 'drained_at', 'nslots', 'pass_')
 
 
 def run_one(ctx):
+    _run(ctx, frozenset())
+    # A drained closure that never completes is first keyed by the kinds (KINDS) present in it.  To keep one key per root cause the
+    # run is then repeated on shadow contexts (same tape, nothing of it is logged) with kinds left out of the program: if it still
+    # never completes with all of them left out, none is to blame (.../liveness); otherwise the first kind that alone (all others
+    # left out) still prevents completion names the finding; 'a+b' stays only if no single kind does.
+    nc = 'C05/never-completes/'
+    if ctx.violations and ctx.violations[0][0].startswith(nc) and not ctx.violations[0][0].endswith('/liveness'):
+        key, detail = ctx.violations[0]
+        kinds = key[len(nc):].split('+')
+
+        def rerun(mute):
+            sub = RunCtx(ctx.prop, Choices(tape=list(ctx.ch.tape)), ctx.cfg, ctx.tier)
+            sub.avoid = ctx.avoid
+            try:
+                _run(sub, frozenset(mute))
+            except Exception:
+                return None
+            return sub.violations[0][0] if sub.violations else ''
+
+        if (rerun(KINDS) or '').startswith(nc):
+            ctx.violations[0] = (nc + 'liveness', detail + ' [kinds present: %s; none is to blame: the program with all of them left out '
+                                 'still never completes]' % ', '.join(kinds))
+        else:
+            for f in kinds:
+                if rerun(set(KINDS) - {f}) == nc + f:
+                    ctx.violations[0] = (nc + f, detail + ' [kinds present: %s; attributed to %s: the program with all other kinds left '
+                                         'out still never completes, with all kinds left out it completes]' % (', '.join(kinds), f))
+                    break
+
+
+def _run(ctx, mute):
     ch = ctx.ch
     world.reset(ctx)
     cfg = ctx.cfg
-    av_cancel, av_genraise, av_genstep = K_CANCEL in ctx.avoid, K_GENRAISE in ctx.avoid, K_GENSTEP in ctx.avoid
-    if K_BOTH in ctx.avoid and not (av_cancel or av_genraise):      # the combined shape alone is listed: keep the two kinds apart
-        av_genraise = True
+    # ctx.avoid: never-completes keys name the shapes present in the closure ('a+b' = both); a single shape is avoided as such,
+    # of a listed combination that is not yet broken up the last member is avoided
+    shapes = [k.rsplit('/', 1)[1].split('+') for k in sorted(ctx.avoid) if k.startswith('C05/never-completes/')]
+    av = {sh[0] for sh in shapes if len(sh) == 1}
+    for sh in shapes:
+        if not av.intersection(sh):
+            av.add(sh[-1])
+    av_cancel, av_genraise, av_noh, av_genstep = F_CANCEL in av, F_GENRAISE in av, F_NOH in av, K_GENSTEP in ctx.avoid
+    av_stop, av_raise, av_nested = F_STOP in av, F_RAISE in av, F_NESTED in av
     maxdepth = cfg['max_depth']
-    st = dict(eid=0, nid=0, in_h=0, cur_h=0, ticks=0, open=0, gen_steps=0, task_phase=False, pending_unreg=None)
+    st = dict(eid=0, nid=0, in_h=0, cur_h=0, ticks=0, open=0, gen_steps=0, task_phase=False, pending_unreg=None, passes=0)
     G = {}            # eid -> Ghost
     tracked = []      # eids of complete-requesting events, in fire order
+    pend0 = []        # fired handler-less events whose queue pass has not ended yet
 
     # ---------------------------------------------------------------- program: handler slots
     ncomp = ch.randint(1, 3, 'ncomp')
     slots = []
+    cchan = []
     for ci in range(ncomp):
+        cchan.append(ch.choice(CCHANS, 'comp-channel'))
         for _ in range(ch.randint(1, 2, 'nslots')):
             names = ch.subset(NAMES, 'slot-names') or [ch.choice(NAMES, 'slot-name1')]
             slots.append(dict(idx=len(slots), comp=ci, gen=ch.chance(1, 3, 'slot-gen'), names=names, prio=ch.choice(HPRIOS, 'slot-prio')))
@@ -116,28 +174,42 @@ def run_one(ctx):
     for s in slots:
         for n in s['names']:
             by_name.setdefault(n, []).append(s)
+    def match(name, echan):
+        """the slots that will be invoked for an event `name` fired on channel `echan` (handlers take their component's channel)"""
+        return [s for s in by_name.get(name, ()) if echan == '*' or cchan[s['comp']] in ('*', echan)]
+
     for n, ss in by_name.items():
         if sum(1 for s in ss if s['gen']) >= 2:
             ctx.stat('two-generators-one-event')
             break
 
     # ---------------------------------------------------------------- program: event trees
-    def gen_node(depth, tracked_above, bud, name=None):
+    def gen_node(depth, tracked_above, bud, firer, name=None):
         bud[0] -= 1
         n = Node()
         st['nid'] += 1
-        n.nid, n.depth, n.cancel, n.unreg = st['nid'], depth, 0, name is not None
+        n.nid, n.depth, n.cancel, n.unreg, n.firer = st['nid'], depth, 0, name is not None, firer
         n.name = name or ch.choice(NAMES, 'name')
         if name:
             n.complete, n.cc, n.succ = True, False, False          # prepare_unregister: complete=True is set by circuits
         else:
-            n.complete = ch.chance(3, 4, 'root-complete') if depth == 0 else ch.chance(1, 5, 'nested-complete')
+            n.complete = ch.chance(3, 4, 'root-complete') if depth == 0 else (not (tracked_above and av_nested) and ch.chance(1, 5, 'nested-complete'))
             n.cc = n.complete and ch.chance(1, 4, 'complete-channels')
             n.succ = ch.chance(1, 4, 'success-flag')     # also asks for `<name>_success` (feedback event, observers only log)
+        # channel: a name nobody handles, or a handled name fired on a channel nobody listens on, gives a handler-less event
+        n.chan = None if name else ECHANS[ch.weighted([5, 2, 1, 1, 1], 'channel')]
+        n.echan = '*' if name else (n.chan if n.chan is not None else cchan[firer])
+        ms = match(n.name, n.echan)
+        if not ms and tracked_above and av_noh:
+            n.chan = n.echan = '*'
+            if not match(n.name, '*'):
+                n.name = slots[0]['names'][0]
+            ms = match(n.name, '*')
+        n.nslots = len(ms)
         n.tracked = tracked_above or n.complete
         n.specs = {}
         fan = 0
-        for s in by_name.get(n.name, ()):
+        for s in ms:
             gen = s['gen']
             nsteps = 1 + ch.weighted([2, 2, 1], 'gen-steps') if gen else 1
             steps = []
@@ -148,13 +220,13 @@ def run_one(ctx):
                     if fan >= FANOUT or bud[0] <= 0:
                         break
                     fan += 1
-                    c = gen_node(depth + 1, n.tracked, bud)
+                    c = gen_node(depth + 1, n.tracked, bud, s['comp'])
                     if not (n.tracked and av_cancel):
                         c.cancel = ch.weighted([6, 1, 1], 'cancel')      # 0 no, 1 by the firing handler, 2 by the harness
                     acts.append(('fire', c))
-                if not gen and ch.chance(1, 8, 'stop'):
+                if not gen and not (n.tracked and av_stop) and ch.chance(1, 8, 'stop'):
                     acts.insert(ch.draw(len(acts) + 1, 'stop-pos'), ('stop',))
-                if not (gen and n.tracked and av_genraise) and ch.chance(1, 8, 'raise'):
+                if not (n.tracked and (av_genraise if gen else av_raise)) and ch.chance(1, 8, 'raise'):
                     acts = acts[:ch.draw(len(acts) + 1, 'raise-pos')] + [('raise',)]
                     steps.append(acts)
                     break
@@ -168,8 +240,32 @@ def run_one(ctx):
     roots = []
     for _ in range(nroots):
         is_unreg = ch.chance(1, 6, 'root-is-unregister')
-        roots.append(gen_node(0, False, [ch.randint(1, cfg['max_nodes'], 'tree-budget')], 'prepare_unregister' if is_unreg else None))
+        roots.append(gen_node(0, False, [ch.randint(1, cfg['max_nodes'], 'tree-budget')], ch.draw(ncomp, 'firer'),
+                              'prepare_unregister' if is_unreg else None))
     BOUND = 4 * st['gen_steps'] + maxdepth + 10
+
+    def strip(n):
+        """attribution re-run (see run_one): leave the muted kinds out of the program"""
+        if F_NESTED in mute and n.depth:
+            n.complete = n.cc = False
+        for sl in slots:
+            for i, acts in enumerate(n.specs.get(sl['idx'], ())):
+                out = []
+                for a in acts:
+                    if a[0] == 'stop' and F_STOP in mute or a[0] == 'raise' and (F_GENRAISE if sl['gen'] else F_RAISE) in mute:
+                        continue
+                    if a[0] == 'fire':
+                        if F_NOH in mute and not a[1].nslots or F_CANCEL in mute and a[1].cancel == 1:
+                            continue
+                        if F_CANCEL in mute:
+                            a[1].cancel = 0
+                        strip(a[1])
+                    out.append(a)
+                n.specs[sl['idx']][i] = out
+
+    if mute:
+        for r in roots:
+            strip(r)
 
     # ---------------------------------------------------------------- ghost helpers
     def closure(x):
@@ -184,6 +280,10 @@ def run_one(ctx):
         """cancelled before dispatch, or dispatched to all its handlers (all returned, all generators finished)"""
         if g.state == 'cancelled':
             return True
+        if not g.nslots:
+            # a handler-less event cannot be seen being dispatched: it is done once the queue pass it belongs to has ended
+            # (state 'begun'); while that pass is running it may already have been popped, so it is given the benefit of the doubt
+            return g.state == 'begun' or st['passes'] >= g.pass_
         if g.state != 'begun' or g.open:
             return False
         if st['in_h'] and st['cur_h'] == g.eid:
@@ -209,14 +309,20 @@ def run_one(ctx):
         g = Ghost()
         g.eid, g.node, g.ev, g.parent, g.via_gen = st['eid'], node, ev, parent, via_gen
         g.kids, g.state, g.ran, g.stopped, g.open, g.gen_raised, g.plain_raised = [], 'pending', set(), False, 0, False, False
-        g.cfired, g.drained_at, g.nslots = 0, None, len(by_name.get(node.name, ()))
+        g.cfired, g.drained_at, g.nslots = 0, None, node.nslots
+        g.pass_ = st['passes'] + 1        # the earliest (and, for a correct queue, the) pass that pops it: the next one to begin
+        if not g.nslots:
+            pend0.append(g)
+            if parent and G[parent].node.tracked:
+                ctx.stat('tracked-handlerless')
+                ctx.stat('tracked-deaf-channel' if by_name.get(node.name) else 'tracked-unhandled-name')
         ev.sim_id = g.eid
         G[g.eid] = g
         if parent:
             G[parent].kids.append(g.eid)
         if node.complete:
             tracked.append(g.eid)
-        ctx.log('F', g.eid, node.name, parent or 0, int(via_gen), int(node.complete), int(node.cc), int(st['task_phase']))
+        ctx.log('F', g.eid, node.name, node.echan, g.nslots, parent or 0, int(via_gen), int(node.complete), int(node.cc), int(st['task_phase']))
         return g
 
     def do_fire(comp, node, parent, via_gen, indent='    '):
@@ -229,10 +335,14 @@ def run_one(ctx):
             e.complete_channels = ('cc',)
             ctx.stat('complete-channels')
         g = new_ghost(node, e, parent, via_gen)
-        ctx.trace('%sfire e%d %s%s%s%s%s' % (indent, g.eid, node.name, ' complete=True' if node.complete else '',
+        ctx.trace('%sfire e%d %s%s%s%s%s%s' % (indent, g.eid, node.name, (' on %s' % node.chan if node.chan else '') +
+                                           ('' if g.nslots else ' [no handler]'), ' complete=True' if node.complete else '',
                                          ' complete_channels=cc' if node.cc else '', ' success=True' if node.succ else '',
                                          ' (child of e%d%s)' % (parent, ', from a generator step' if via_gen else '') if parent else ''))
-        comp.fire(e)
+        if node.chan is None:
+            comp.fire(e)
+        else:
+            comp.fire(e, node.chan)
         return g
 
     def cancel(g, who):
@@ -301,9 +411,9 @@ def run_one(ctx):
         feats = (sum(len(cl) >= b for b in (2, 4, 7, 13)), max(g.node.depth for g in cl) - gx.node.depth, min(3, sum(g.via_gen for g in cl[1:])),
                  min(2, sum(g.state == 'cancelled' for g in cl)), min(2, sum(g.stopped for g in cl)),
                  min(2, sum(g.plain_raised for g in cl)), min(2, sum(g.gen_raised for g in cl)),
-                 min(2, sum(g.node.complete for g in cl[1:])), int(st['task_phase']))
+                 min(2, sum(g.node.complete for g in cl[1:])), min(2, sum(not g.nslots for g in cl[1:])), int(st['task_phase']))
         ctx.state(feats)
-        if len(cl) >= 3 and (any(feats[2:7])):
+        if len(cl) >= 3 and (any(feats[2:7]) or feats[8]):
             st['nontrivial'] = True
 
     # ---------------------------------------------------------------- oracle, liveness part
@@ -326,14 +436,16 @@ def run_one(ctx):
                     cl = closure(x)
                     canc = [g.eid for g in cl if g.state == 'cancelled']
                     graise = [g.eid for g in cl if g.gen_raised]
-                    # shape = which of the fault kinds the statement names are present in the closure (stop and raising plain
-                    # handlers are listed in the detail only)
-                    key = (K_BOTH if canc and graise else K_CANCEL if canc else K_GENRAISE if graise else 'C05/never-completes/liveness')
+                    noh = [g.eid for g in cl[1:] if not g.nslots and g.state != 'cancelled']
+                    stopd, praise = [g.eid for g in cl if g.stopped], [g.eid for g in cl if g.plain_raised]
+                    nested = [g.eid for g in cl[1:] if g.node.complete and g.state != 'cancelled']
+                    # first key: the kinds present in the closure (run_one then narrows it down to the one to blame)
+                    present = ((F_CANCEL, canc), (F_GENRAISE, graise), (F_NOH, noh), (F_STOP, stopd), (F_RAISE, praise), (F_NESTED, nested))
+                    key = 'C05/never-completes/' + ('+'.join(f for f, ids in present if ids) or 'liveness')
                     ctx.violation(key, '%s_complete for e%d not fired %d ticks after its closure %r drained (bound %d); cancelled: %r, '
-                                  'raising generator handlers: %r, stopped: %r, raising plain handlers: %r, nested complete: %r' % (
-                                      gx.node.name, x, st['ticks'] - gx.drained_at, [g.eid for g in cl], BOUND, canc, graise,
-                                      [g.eid for g in cl if g.stopped], [g.eid for g in cl if g.plain_raised],
-                                      [g.eid for g in cl[1:] if g.node.complete]))
+                                  'raising generator handlers: %r, handler-less: %r, stopped: %r, raising plain handlers: %r, nested complete: %r' % (
+                                      gx.node.name, x, st['ticks'] - gx.drained_at, [g.eid for g in cl], BOUND, canc, graise, noh,
+                                      stopd, praise, nested))
                     return False
         return waiting
 
@@ -355,9 +467,28 @@ def run_one(ctx):
                     node, st['pending_unreg'] = st['pending_unreg'], None
                     g = new_ghost(node, event, 0, False)
                     ctx.trace('    fire e%d prepare_unregister complete=True complete_channels=(leaf,) [by leaf.unregister()]' % g.eid)
+                else:                   # other manager feedback (exception, *_success, unregistered): log only
+                    ctx.log('X', event.name, x or 0)
             return super().fireEvent(event, *channels, **kwargs)
 
         fire = fireEvent
+
+        def flushEvents(self):
+            """queue-pass marker (tick() calls self.flush()): everything queued before this point belongs to the pass that begins"""
+            st['passes'] += 1
+            st['task_phase'] = False        # tick() steps the tasks first; the flush ends that phase
+            try:
+                return super().flushEvents()
+            finally:
+                for g in pend0[:]:
+                    if g.pass_ <= st['passes']:
+                        pend0.remove(g)
+                        if g.state == 'pending':
+                            g.state = 'begun'
+                            ctx.log('D0', g.eid)
+                            ctx.trace('  (pass over: handler-less e%d has been dispatched)' % g.eid)
+
+        flush = flushEvents
 
     def make_slot(s):
         idx, gen = s['idx'], s['gen']
@@ -387,6 +518,10 @@ def run_one(ctx):
             if eid is None:
                 return None
             g = G[eid]
+            if g.state != 'begun':
+                g.state = 'begun'
+                ctx.log('D', eid)
+                ctx.trace('  dispatch e%d (%s)' % (eid, g.node.name))
             g.ran.add(idx)
             steps = g.node.specs[idx]
             ctx.log('H', eid, idx)
@@ -410,20 +545,15 @@ def run_one(ctx):
         return handler(*s['names'], priority=s['prio'])(h)
 
     class Obs(Traced):
-        @handler(priority=1e18, channel='*')
+        """logs the dispatch of feedback events by NAME; there is deliberately no catch-all handler anywhere in the tree, so that
+        events nobody handles really have no handler at all"""
+
+        @handler(*([n + sfx for n in NAMES for sfx in ('_complete', '_success')] + ['exception']), channel='*')
         def _sim_obs(self, event, *args, **kwargs):
-            st['task_phase'] = False        # tick() steps the tasks first; the first dispatch ends that phase
-            eid = getattr(event, 'sim_id', None)
-            if eid is None:
-                p = getattr(event, 'parent', None)
-                ctx.log('X', event.name, getattr(p, 'sim_id', 0) or 0)
-                if event.name.endswith('_complete'):
-                    ctx.trace('  dispatch %s' % event.name)
-                return
-            g = G[eid]
-            g.state = 'begun'
-            ctx.log('D', eid)
-            ctx.trace('  dispatch e%d (%s)' % (eid, g.node.name))
+            p = getattr(event, 'parent', None)
+            ctx.log('XD', event.name, getattr(p, 'sim_id', 0) or 0)
+            if event.name.endswith('_complete'):
+                ctx.trace('  dispatch %s' % event.name)
 
     comps = []
     for ci in range(ncomp):
@@ -432,6 +562,7 @@ def run_one(ctx):
             if s['comp'] == ci:
                 f = make_slot(s)
                 ns[f.__name__] = f
+        ns['channel'] = cchan[ci]
         comps.append(type('C%d' % ci, (Traced,), ns)())
     root = comps[0]
     for i, c in enumerate(comps[1:], 1):
@@ -443,7 +574,7 @@ def run_one(ctx):
             leaves.append(type('Leaf', (Traced,), {})().register(ch.choice(comps, 'leaf-parent')))
     while len(root):          # drain the `registered` events before the experiment
         root.flush()
-    ctx.trace('program: %s' % '; '.join('h%d on C%d%s for %s prio %r' % (s['idx'], s['comp'], ' [generator]' if s['gen'] else '',
+    ctx.trace('program: %s' % '; '.join('h%d on C%d(channel %s)%s for %s prio %r' % (s['idx'], s['comp'], cchan[s['comp']], ' [generator]' if s['gen'] else '',
                                                                             ','.join(s['names']), s['prio']) for s in slots))
 
     # ---------------------------------------------------------------- history
@@ -489,7 +620,7 @@ def run_one(ctx):
             leaf.unregister()
             st['pending_unreg'] = None
         else:
-            do_fire(ch.choice(comps, 'firer'), node, 0, False, '')
+            do_fire(comps[node.firer], node, 0, False, '')
 
     todo = list(roots)
     for _ in range(ch.randint(1, cfg['max_ops'], 'nops')):
